@@ -28,6 +28,7 @@ EXPLANATION = (
     ' utils.normalize, through which the Japanese writer sends the surface form, must leave every word other than the bracket names unchanged; the find()-slice rule carries an embedded example.'
     " Third round: the reader's symbol set is evaluated as a constant expression (starred generators over range, f-strings)."
     ' Fourth round: cuts at the annotation underscore of Japanese lexical categories are anchored at the first underscore.'
+    ' Fifth round: the Japanese node template on every path; label recovery total over any three categories.'
 )
 TRUSTED = ['CPython ast', 'sa/pysym.py path walker', 'independent category grammar sa/datafiles.py', 'rule table DESIGN.md C20']
 
